@@ -234,7 +234,21 @@ def _invariants(case, G, recs, slices, expected, term_targets, ctx):
     ended = set()
     done_seen = set()
     term_issued = set()
-    for ev in G:
+    # events in the order in which they happened: an `sd` observation is taken when scriptDone is evaluated, which may be a
+    # slice earlier than the pushBack that records it (found as a false alarm: value computed, slice over, target finishes, value pushed)
+    pushes = [i for i, rc in enumerate(recs) if rc[4] == "CALLBINARY pushback"]
+    timed = []
+    for gi, ev in enumerate(G):
+        at = pushes[gi] if gi < len(pushes) else 10 ** 9 + gi
+        if ev[0] == "sd" and gi < len(pushes):
+            cx = recs[at][0]
+            for i in range(at - 1, -1, -1):
+                if recs[i][0] == cx and recs[i][4] == "CALLUNARY scriptdone":
+                    at = i
+                    break
+        timed.append((at, gi, ev))
+    timed.sort(key=lambda t: (t[0], t[1]))
+    for _at, _gi, ev in timed:
         if ev[0] == "end":
             ended.add(int(ev[1]))
         elif ev[0] == "t":
